@@ -190,15 +190,19 @@ func c15Conn(c *Ctx) {
 				continue
 			}
 			for _, in := range blk.Instrs {
-				if fv := fieldOfAddrOrLoad(in); fv == dl || fv == wt {
-					colField[k.Int64()] = fv.Name()
+				// named after the anchor, not after the field's present name
+				if fv := fieldOfAddrOrLoad(in); fv == dl {
+					colField[k.Int64()] = "deadline"
+				} else if fv == wt {
+					colField[k.Int64()] = "writeTime"
 				}
 			}
 		}
 	}
 	// Update: which values[k] feeds which field
 	updField := map[int64]string{}
-	for _, f := range []*types.Var{dl, wt} {
+	for fi, f := range []*types.Var{dl, wt} {
+		anchorName := []string{"deadline", "writeTime"}[fi]
 		for _, st := range an.StoresToField(upd, f) {
 			an.DependsOn(st.Val, func(v ssa.Value) bool {
 				ia, ok := v.(*ssa.IndexAddr)
@@ -209,7 +213,7 @@ func c15Conn(c *Ctx) {
 					return false
 				}
 				if k, ok := ia.Index.(*ssa.Const); ok {
-					updField[k.Int64()] = f.Name()
+					updField[k.Int64()] = anchorName
 				}
 				return false
 			})
